@@ -28,6 +28,11 @@ func setupFull(w *World) {
 	w.startKubelet()
 	w.startGC()
 	installMonitors(w)
+	if w.Plan.Property == "C04" {
+		// the cron oracle, here with the real job-config controller persisting lastScheduled
+		m := newCronMon(w)
+		w.onTickerRead = m.noteTickerRead
+	}
 	w.seedObjects()
 	for i := range w.Plan.ForeignPods {
 		fp := w.Plan.ForeignPods[i]
@@ -218,6 +223,8 @@ func nonTrivialFull(w *World) bool {
 		return s["mon.c13.job_removals"] > 0
 	case "C15":
 		return s["mon.c15.fixpoint_jcs"] > 0 && s["mon.c15.jobs_seen"] > 0
+	case "C04":
+		return w.Sim.Faults["proc.restart"] > 0 && s["cron.enqueue"] > 0
 	case "C20":
 		return w.Sim.Faults["api.drop"]+w.Sim.Faults["api.lostack"]+w.Sim.Faults["api.conflict"]+w.Sim.Faults["proc.crash"] > 1
 	}
@@ -406,6 +413,10 @@ func genFull(seed int64, property string) *Plan {
 		crashes = r.Intn(3) == 0
 		nAdhoc, nIndep = r.Intn(2), 0
 		p.CronDupPm = []int{0, 200, 500, 1000}[r.Intn(4)]
+	case "C04":
+		cron = true
+		crashes = true
+		nAdhoc, nIndep = 0, 0
 	case "C05", "C06":
 		cron = r.Intn(3) == 0
 		faulty = property == "C05" && r.Intn(3) > 0 || property == "C06" && r.Intn(3) == 0
@@ -683,6 +694,9 @@ func genFull(seed int64, property string) *Plan {
 		if r.Intn(3) == 0 && property != "C20" {
 			p.Relists = append(p.Relists, RelistPlan{AtMs: int64(r.Intn(int(durMs))), Res: []string{"jobs", "pods", "jobconfigs"}[r.Intn(3)]})
 		}
+	}
+	if faulty && (property == "C02" || property == "C20") && r.Intn(3) == 0 {
+		p.WebhookDown = append(p.WebhookDown, LagPlan{AtMs: int64(r.Intn(int(durMs))), DurMs: int64(500 + r.Intn(20000))})
 	}
 	if crashes {
 		n := 1 + r.Intn(2)
